@@ -189,8 +189,11 @@ func (in *inspector) lines(src string, sa flows.SessionAssets, s flows.Session, 
 								if rn, _ := am["result_name"].(string); rn == m.Name {
 									by = a.Type()
 								}
+								// (a set_run_result action of the same name only if it is the one that saves this category)
 								if nm, _ := am["name"].(string); a.Type() == "set_run_result" && nm == m.Name {
-									by = a.Type()
+									if cat, _ := am["category"].(string); cat == m.Category || by == "router" {
+										by = a.Type()
+									}
 								}
 							}
 						}
